@@ -374,6 +374,8 @@ def source(root: Sp, extra_src: str = "") -> str:
             lines.extend(d.opt("raw_src").splitlines())
         else:
             kind = d.opt("kind")
+            if d.opt("class_aliaser"):
+                lines.append(f"@alias({CLASS_ALIASERS[d.opt('class_aliaser')][0]})")
             for deco in d.opt("deco", ()):
                 lines.append("@" + deco)
             if kind == "dataclass":
@@ -439,6 +441,21 @@ def default_value(prog: Program, f: F):
     tag, expr = f.default
     v = eval(expr, prog.module.__dict__)
     return v() if tag == "f" else v
+
+
+CLASS_ALIASERS = {
+    "upper": ("lambda s: s.upper()", lambda s: s.upper()),
+    "cprefix": ("lambda s: 'c_' + s", lambda s: "c_" + s),
+}
+
+
+def static_alias(o: Sp, f: F) -> str:
+    """alias or name, through the class aliaser unless the field opted out (documented)"""
+    a = f.alias or f.name
+    ca = o.opt("class_aliaser")
+    if ca and not f.no_override:
+        a = CLASS_ALIASERS[ca][1](a)
+    return a
 
 
 def is_required(o: Sp, f: F) -> bool:
